@@ -13,6 +13,9 @@
 //	rm id=<n>                                            RemoveOperator
 //	expire id=<n> | timeout id=<n>                       make the operator old (SetOperatorStatusReachTime)
 //	delregion r=<id>                                     the region disappears from PD's cache
+//	race id=<n> kinds=<c|r|t|k,...>                       Start() an operator that was never offered, then one goroutine
+//	                                                     per kind at once: Cancel / Replace / CheckTimeout (made old) /
+//	                                                     CheckSuccess (operator without steps)
 //	sleep ms=<n>                                         real time passes (notifier entries become due)
 //	exec r=<id>                                          the store executes the last command it received
 //	fadd r= p=<peer> | frm r= s= | flead r= s= | caught r= | frange r=     foreign events on the store
@@ -26,10 +29,12 @@ import (
 	"fmt"
 	"math/rand"
 	"reflect"
+	"runtime"
 	"sort"
 	"strconv"
 	"strings"
 	"sync"
+	"sync/atomic"
 	"time"
 
 	"github.com/pingcap/kvproto/pkg/metapb"
@@ -78,6 +83,7 @@ type world struct {
 	sims    map[uint64]*opsim.Sim
 	ops     map[uint64]*operator.Operator
 	ids     map[*operator.Operator]uint64
+	makers  map[uint64]func() *operator.Operator // builds a fresh copy of an operator as it was created
 	opOrder []uint64
 	lastMsg map[uint64]*pdpb.RegionHeartbeatResponse
 	seedCtr int64
@@ -109,6 +115,7 @@ func (w *world) reset(kv map[string]string) string {
 	w.sims = map[uint64]*opsim.Sim{}
 	w.ops = map[uint64]*operator.Operator{}
 	w.ids = map[*operator.Operator]uint64{}
+	w.makers = map[uint64]func() *operator.Operator{}
 	w.opOrder = nil
 	w.lastMsg = map[uint64]*pdpb.RegionHeartbeatResponse{}
 	w.flush()
@@ -329,11 +336,16 @@ func (w *world) exec(opLine string, generating bool) (string, string) {
 		if kv["km"] == "1" {
 			kind |= operator.OpMerge
 		}
-		op := operator.NewOperator("d"+kv["d"], "verif", r,
-			&metapb.RegionEpoch{ConfVer: atou(kv["cv"]), Version: atou(kv["v"])}, kind, steps...)
-		op.SetPriorityLevel(core.PriorityLevel(atou(kv["lvl"])))
-		// the wall clock must not expire it behind our back
-		operator.SetOperatorStatusReachTime(op, operator.CREATED, time.Now().Add(time.Hour))
+		desc, cv, ver, lvl := "d"+kv["d"], atou(kv["cv"]), atou(kv["v"]), atou(kv["lvl"])
+		mk := func() *operator.Operator {
+			op := operator.NewOperator(desc, "verif", r, &metapb.RegionEpoch{ConfVer: cv, Version: ver}, kind, steps...)
+			op.SetPriorityLevel(core.PriorityLevel(lvl))
+			// the wall clock must not expire it behind our back
+			operator.SetOperatorStatusReachTime(op, operator.CREATED, time.Now().Add(time.Hour))
+			return op
+		}
+		op := mk()
+		w.makers[id] = mk
 		w.ops[id] = op
 		w.ids[op] = id
 		w.opOrder = append(w.opOrder, id)
@@ -392,6 +404,55 @@ func (w *world) exec(opLine string, generating bool) (string, string) {
 		}
 		operator.SetOperatorStatusReachTime(op, st, time.Now().Add(-24*time.Hour))
 		return opLine, "ok"
+	case "race":
+		op, ok := w.ops[atou(kv["id"])]
+		kinds := strings.Split(kv["kinds"], ",")
+		if !ok || kv["kinds"] == "" || op.Status() != operator.CREATED {
+			return opLine, "bad-op"
+		}
+		for _, x := range w.oc.GetWaitingOperators() {
+			if x == op {
+				return opLine, "bad-op"
+			}
+		}
+		nT, nK := 0, 0
+		for _, k := range kinds {
+			switch k {
+			case "t":
+				nT++
+			case "k":
+				nK++
+			case "c", "r":
+			default:
+				return opLine, "bad-op"
+			}
+		}
+		if nT > 1 || nK > 1 || (nT > 0 && op.Len() == 0) || (nK > 0 && op.Len() != 0) {
+			return opLine, "bad-op"
+		}
+		// the race is run on fresh copies of the operator (several trials: a lost race shows only now and
+		// then); the first trial that is not "exactly one winner, remembered = final" is reported, otherwise
+		// the last one.  The operator itself is then moved the way the reported winner moved its copy.
+		var rep raceReport
+		for trial := 0; trial < raceTrials; trial++ {
+			rep = raceOp(w.makers[atou(kv["id"])](), kinds)
+			if rep.wins != 1 || rep.rec != rep.final {
+				break
+			}
+		}
+		op.Start()
+		operator.SetOperatorStatusReachTime(op, operator.STARTED, time.Now().Add(-24*time.Hour))
+		switch rep.final {
+		case "X":
+			op.Cancel()
+		case "R":
+			op.Replace()
+		case "T":
+			op.CheckTimeout()
+		case "OK":
+			op.CheckSuccess()
+		}
+		return opLine, rep.String()
 	case "sleep":
 		// real time passes (a little more than the model is told, so that "due" is never a close call)
 		time.Sleep(time.Duration(atou(kv["ms"])+100) * time.Millisecond)
@@ -447,6 +508,98 @@ func (w *world) exec(opLine string, generating bool) (string, string) {
 		return opLine, "sim " + s.Text()
 	}
 	return opLine, "bad-op"
+}
+
+// raceOp starts the operator, makes it old, and lets one goroutine per kind attempt its end transition at the
+// same moment.  Report: how many said they succeeded, which kind (the first in kind order that succeeded), the
+// final status, and the statuses the winners saw right after their success (what buryOperator would remember).
+const raceTrials = 10
+
+type raceReport struct {
+	wins               int
+	winner, final, rec string
+}
+
+func (r raceReport) String() string {
+	return fmt.Sprintf("wins=%d winner=%s final=%s rec=%s", r.wins, r.winner, r.final, r.rec)
+}
+
+func raceOp(op *operator.Operator, kinds []string) raceReport {
+	op.Start()
+	operator.SetOperatorStatusReachTime(op, operator.STARTED, time.Now().Add(-24*time.Hour))
+	var start, arrived int32 // spin barrier: the goroutines leave it within nanoseconds of each other
+	type res struct {
+		kind string
+		ok   bool
+		seen operator.OpStatus
+	}
+	out := make([]res, len(kinds))
+	var wg, ready sync.WaitGroup
+	for i, k := range kinds {
+		wg.Add(1)
+		ready.Add(1)
+		go func(i int, k string) {
+			defer wg.Done()
+			ready.Done()
+			atomic.AddInt32(&arrived, 1)
+			for atomic.LoadInt32(&start) == 0 {
+				runtime.Gosched()
+			}
+			var ok bool
+			switch k {
+			case "c":
+				ok = op.Cancel()
+			case "r":
+				ok = op.Replace()
+			case "t":
+				ok = op.CheckTimeout()
+			case "k":
+				ok = op.CheckSuccess()
+			}
+			out[i] = res{k, ok, op.Status()}
+		}(i, k)
+	}
+	ready.Wait()
+	// wait until as many goroutines as there are processors spin at the barrier (the others queue behind them)
+	want := int32(runtime.GOMAXPROCS(0) - 1)
+	if want > int32(len(kinds)) {
+		want = int32(len(kinds))
+	}
+	for spins := 0; atomic.LoadInt32(&arrived) < want && spins < 1000000; spins++ {
+		runtime.Gosched()
+	}
+	atomic.StoreInt32(&start, 1)
+	wg.Wait()
+	wins, winner := 0, "-"
+	seen := map[string]bool{}
+	for _, r := range out {
+		if r.ok {
+			wins++
+			if winner == "-" {
+				winner = r.kind
+			}
+			seen[statusNames[r.seen]] = true
+		}
+	}
+	final := statusNames[op.Status()]
+	// report the winner whose transition is the final status first (it is the one the model replays)
+	for _, r := range out {
+		if r.ok && statusNames[map[string]operator.OpStatus{"c": operator.CANCELED, "r": operator.REPLACED,
+			"t": operator.TIMEOUT, "k": operator.SUCCESS}[r.kind]] == final {
+			winner = r.kind
+			break
+		}
+	}
+	var recs []string
+	for s := range seen {
+		recs = append(recs, s)
+	}
+	sort.Strings(recs)
+	rec := "-"
+	if len(recs) > 0 {
+		rec = strings.Join(recs, "+")
+	}
+	return raceReport{wins, winner, final, rec}
 }
 
 // keepYoung pushes the STARTED reach time of every running operator into the future so that the
@@ -651,7 +804,38 @@ func gen(w *world, t *trace.W, r *rng.R, events int, faithful bool, sleeps int) 
 		opIDs = append(opIDs, id)
 		return id
 	}
+	raceOne := func() {
+		region := anyRegion()
+		if w.sims[region] == nil {
+			return
+		}
+		id := nextID
+		nextID++
+		steps, pool := "-", []string{"c", "r", "c", "r", "k"}
+		if r.Bool(1, 2) {
+			steps, pool = "rm:99#99,split", []string{"c", "r", "c", "r", "t"}
+		}
+		w.run(t, fmt.Sprintf("mkop id=%d d=0 r=%d cv=1 v=1 lvl=1 kr=0 km=0 steps=%s", id, region, steps), true)
+		opIDs = append(opIDs, id)
+		n := r.Range(2, 6)
+		perm := []int{0, 1, 2, 3, 4}
+		for k := 4; k > 0; k-- {
+			j := r.Intn(k + 1)
+			perm[k], perm[j] = perm[j], perm[k]
+		}
+		var kinds []string
+		for k := 0; k < n && k < 5; k++ {
+			kinds = append(kinds, pool[perm[k]])
+		}
+		if n == 6 {
+			kinds = append(kinds, "c")
+		}
+		w.run(t, fmt.Sprintf("race id=%d kinds=%s", id, strings.Join(kinds, ",")), true)
+	}
 	for e := 0; e < events; e++ {
+		if e%12 == 3 {
+			raceOne()
+		}
 		if sleeps > 0 && e > 5 && e%(events/(sleeps+1)+1) == 0 {
 			w.run(t, "sleep ms=2000", true)
 			w.run(t, "push", true)
